@@ -578,7 +578,16 @@ class WrappedTable:
         rel_name = f"{wrapped_field.field.name}"
         rel_type = f"Mapped[{target_wrapped_table.tablename}]"
         # relationships have to be post updated since since it won't work in the case of subclasses with another ref otherwise
-        rel_constructor = f"relationship('{target_wrapped_table.tablename}', uselist=False, foreign_keys=[{fk_name}], post_update=True)"
+        # a reference into the own table (or to a subclass of it) is self-referential for SQLAlchemy; without remote_side
+        # it is read as ONETOMANY and the foreign key is written on the target's row
+        remote_side = ""
+        table = target_wrapped_table
+        while table is not None:
+            if table is self:
+                remote_side = f", remote_side='{target_wrapped_table.full_primary_key_name}'"
+                break
+            table = table.parent_table
+        rel_constructor = f"relationship('{target_wrapped_table.tablename}', uselist=False, foreign_keys=[{fk_name}]{remote_side}, post_update=True)"
         self.relationships.append(
             ColumnConstructor(rel_name, rel_type, rel_constructor)
         )
